@@ -259,8 +259,9 @@ def enum_laws():  # noqa: C901, PLR0912
 
 
 # ===================================================================================== sampled universe
-S_TYPES = ["A", "B", "SubA", "Abs", "AbsSub", "Impl", "Proto", "ProtoImpl", "ProtoSub", "int", "bool", "str",
-           "list", "List", "dict", ["List", "int"], ["list", "int"], ["List", "A"], ["Opt", "A"],
+S_TYPES = ["A", "B", "SubA", "Abs", "AbsSub", "Impl", "ImplSub", "Proto", "ProtoImpl", "ProtoSub", "ProtoSubSub", "int", "bool", "str",
+           "list", "List", "dict", ["List", "int"], ["list", "int"], ["List", "A"], ["Opt", "A"], ["OptBar", "A"], ["Bar", "B", "A"],
+           ["OptBar", "int"], ["Opt", "int"],
            ["Union", "NoneType", "A"], ["Union", "A", "B"], ["Union", "B", "A"], ["Dict", "str", "int"],
            ["List", ["List", "int"]]]
 S_LOC_TYPES = [*S_TYPES, "NoneType"]
@@ -445,13 +446,13 @@ def st_field_ts(draw, avail):
     if shape == 6:  # noqa: PLR2004
         return ["list", leaf]
     if shape == 7:  # noqa: PLR2004
-        return ["Opt", leaf]
+        return [draw(st.sampled_from(["Opt", "OptBar"])), leaf]
     if shape == 8:  # noqa: PLR2004
         return ["Dict", "str", leaf]
     if shape == 9:  # noqa: PLR2004
         return ["Tuple", draw(st.sampled_from(leaf_pool)), leaf]
     if shape == 10:  # noqa: PLR2004
-        return ["List", ["Opt", leaf]]
+        return ["List", [draw(st.sampled_from(["Opt", "OptBar"])), leaf]]
     return ["Dict", "str", ["List", leaf]]
 
 
